@@ -151,6 +151,22 @@ where
         self
     }
 
+    /// Keeps a constraint that has just been run in the store. `bindings_before` is the size
+    /// of the substitution when the run started: if the run has bound variables, possibly the
+    /// constraint's own operands, the constraint is run again so that it is checked against
+    /// the new bindings instead of waiting for some later extension.
+    pub fn keep_constraint(
+        self,
+        constraint: Rc<dyn Constraint<U, E>>,
+        bindings_before: usize,
+    ) -> SResult<U, E> {
+        if self.smap_ref().len() != bindings_before {
+            constraint.run(self)
+        } else {
+            Ok(self.with_constraint(constraint))
+        }
+    }
+
     pub fn take_constraint(
         mut self,
         constraint: &Rc<dyn Constraint<U, E>>,
@@ -168,6 +184,9 @@ where
     /// checks that the value is within the domain. If new domain constraint is added for a
     /// variable, it is updated to the domain store.
     pub fn process_domain(self, x: &LTerm<U, E>, domain: Rc<FiniteDomain>) -> SResult<U, E> {
+        // The caller may hold a variable that has been bound since it was walked, for
+        // example by constraints re-run while an earlier operand was processed.
+        let x = &self.smap_ref().walk(x).clone();
         match x.as_ref() {
             LTermInner::Var(_, _) => self.update_var_domain(x, domain),
             LTermInner::Val(LValue::Number(v)) if domain.contains(*v) => Ok(self),
